@@ -670,10 +670,11 @@ class IntermediateCodeGen(AbstractCodeGen):
         elif self.isHex(defval):  # hex
             # common bug in MIBs
             if defvalType[0][0] in ('Integer32', 'Integer'):
+                # the number itself: the digits would no longer be hex ones
                 outDict.update(
-                    value=str(int(len(defval) > 3 and
-                                  defval[1:-2] or '0', 16)),
-                    format='hex'
+                    value=int(len(defval) > 3 and
+                              defval[1:-2] or '0', 16),
+                    format='decimal'
                 )
 
             else:
@@ -688,8 +689,8 @@ class IntermediateCodeGen(AbstractCodeGen):
             # common bug in MIBs
             if defvalType[0][0] in ('Integer32', 'Integer'):
                 outDict.update(
-                    value=str(int(binval or '0', 2)),
-                    format='bin'
+                    value=int(binval or '0', 2),
+                    format='decimal'
                 )
 
             else:
